@@ -366,4 +366,206 @@ theorem from_message_sim (te : TEnv) (now : Int) (m : Msg) (df icao : Nat) (r : 
   simp only [e]
   exact update_sim te now _ m df r hL
 
+-- the default path: records built by `DF::from_message`, applied by `update_from_downlink` ---------------------
+def srtToT (d : Srt) : T.Srt :=
+  { df := d.df, icao := d.icao, squawk := d.squawk, capability := d.capability, altitude := d.altitude }
+
+def extToT (d : Ext) : T.Ext :=
+  { df := d.df, icao := d.icao, capability := d.capability, message_type := d.messageType, ais := d.ais,
+    category := d.category, cpr := d.cpr, ground_movement := d.groundMovement, grspeed := d.grspeed, track := d.track,
+    track_source := d.trackSource, heading := d.heading, heading_source := d.headingSource, altitude := d.altitude,
+    altitude_source := d.altitudeSource, altitude_delta := d.altitudeDelta, altitude_gnss := d.altitudeGnss,
+    vrate := d.vrate, vrate_source := d.vrateSource, surveillance_status := d.surveillanceStatus,
+    adsb_version := d.adsbVersion }
+
+theorem srt_update_sim (m : Msg) : T.Srt.update T.Srt.new m = srtToT (Srt.fromMessage m) := by
+  unfold T.Srt.update Srt.fromMessage T.Srt.new
+  cases getDownlinkFormat m with
+  | none => rfl
+  | some df =>
+    simp only [altitude_eq, squawk_eq, get_capability_eq]
+    by_cases h4 : df = 4 <;> by_cases h5 : df = 5 <;> by_cases h11 : df = 11 <;> simp_all [srtToT]
+
+theorem update_from_downlink_Srt_sim (p : Plane) (d : Srt) :
+    T.Plane.update_from_downlink_Srt (planeToT p) (srtToT d) = planeToT (p.amendSrt d) := by
+  unfold T.Plane.update_from_downlink_Srt Plane.amendSrt
+  have e1 : (srtToT d).icao = d.icao := rfl
+  have e2 : (srtToT d).df = d.df := rfl
+  have e3 : (srtToT d).altitude = d.altitude := rfl
+  have e4 : (srtToT d).squawk = d.squawk := rfl
+  have e5 : (srtToT d).capability = d.capability := rfl
+  simp only [e1, e2, e3, e4, e5]
+  by_cases hi : d.icao.isSome = true
+  · simp only [hi, if_true]
+    by_cases h4 : d.df = some 4 ∧ d.altitude.isSome = true <;> by_cases h5 : d.df = some 5 ∧ d.squawk.isSome = true <;>
+      by_cases h11 : d.df = some 11 <;> cases hc : d.capability <;> simp [h4, h5, h11, planeToT]
+  · simp [hi]
+
+theorem update_from_downlink_Mds_sim (p : Plane) (d : T.Mds) :
+    T.Plane.update_from_downlink_Mds (planeToT p) d = planeToT { p with icao := d.icao.getD p.icao } := by
+  unfold T.Plane.update_from_downlink_Mds
+  cases d.icao <;> simp [planeToT]
+
+-- Ext record ------------------------------------------------------------------------------------------
+theorem ext_update_sim (te : TEnv) (m : Msg) (L : Long m) :
+    T.Ext.update te T.Ext.new m = extToT (Ext.fromMessage (envOfT te) m) := by
+  unfold T.Ext.update Ext.fromMessage
+  cases getDownlinkFormat m with
+  | none => rfl
+  | some df =>
+    simp only [get_capability_eq, get_message_type_eq]
+    have hk : ∀ (e0 : Ext), e0.messageType = getMessageType m →
+        (let self := extToT e0
+         if 1 ≤ self.message_type.1 ∧ self.message_type.1 ≤ 4 then T.Ext.update_mt_1_4 self m
+         else if 5 ≤ self.message_type.1 ∧ self.message_type.1 ≤ 18 then T.Ext.update_mt_5_18 self m df
+         else if self.message_type.1 = 19 then T.Ext.update_mt_19 te self m
+         else if 20 ≤ self.message_type.1 ∧ self.message_type.1 ≤ 22 then T.Ext.update_mt_20_22 self m
+         else if self.message_type.1 = 31 then T.Ext.update_mt_31 self m
+         else self)
+        = extToT (
+          let mt := getMessageType m
+          let tc := mt.1
+          if 1 ≤ tc ∧ tc ≤ 4 then { e0 with ais := Sq.ais m, category := some mt }
+          else if 5 ≤ tc ∧ tc ≤ 18 then
+            let e := { e0 with cpr := Sq.cpr m }
+            if tc ≤ 8 then
+              { e with groundMovement := Sq.groundMovement m, track := Sq.groundTrack m,
+                       trackSource := some chSup0, altitudeSource := some chSup0 }
+            else
+              { e with altitude := Sq.altitude m df, surveillanceStatus := some (Sq.surveillanceStatus m) }
+          else if tc = 19 then
+            let e := { e0 with vrate := Sq.verticalRate m, altitudeDelta := Sq.altitudeDelta m }
+            if mt.2 = 1 then
+              let tg := trackAndGroundspeed (envOfT te).atan2deg m false
+              { e with track := tg.1, grspeed := tg.2, trackSource := some chSub1 }
+            else if mt.2 = 2 then
+              let tg := trackAndGroundspeed (envOfT te).atan2deg m true
+              { e with track := tg.1, grspeed := tg.2, trackSource := some chSub2 }
+            else if mt.2 = 3 ∨ mt.2 = 4 then
+              { e with heading := Sq.headingRaw m, headingSource := some chSub3 }
+            else e
+          else if 20 ≤ tc ∧ tc ≤ 22 then
+            { e0 with altitudeGnss := Sq.altitudeGnss m, surveillanceStatus := some (Sq.surveillanceStatus m) }
+          else if tc = 31 then { e0 with adsbVersion := Sq.adsbVersion m }
+          else e0) := by
+      intro e0 hmt
+      have em : (extToT e0).message_type = getMessageType m := by simp [extToT, hmt]
+      simp only [em]
+      generalize getMessageType m = mt at *
+      obtain ⟨tc, st⟩ := mt
+      simp only
+      by_cases h1 : 1 ≤ tc ∧ tc ≤ 4
+      · simp [h1, T.Ext.update_mt_1_4, extToT, hmt]
+      by_cases h2 : 5 ≤ tc ∧ tc ≤ 18
+      · have n1 : ¬ (1 ≤ tc ∧ tc ≤ 4) := h1
+        by_cases h8 : tc ≤ 8
+        · have : 5 ≤ tc ∧ tc ≤ 8 := ⟨h2.1, h8⟩
+          simp [n1, h2, h8, this, T.Ext.update_mt_5_18, extToT, hmt, cpr_eq, ground_movement_eq, ground_track_eq, chSup0]
+        · have a : ¬ (5 ≤ tc ∧ tc ≤ 8) := fun h => h8 h.2
+          have b : 9 ≤ tc ∧ tc ≤ 18 := ⟨by omega, h2.2⟩
+          simp [n1, h2, h8, a, b, T.Ext.update_mt_5_18, extToT, hmt, cpr_eq, altitude_eq, surveillance_status_eq]
+      by_cases h3 : tc = 19
+      · subst h3
+        by_cases s1 : st = 1 <;> by_cases s2 : st = 2 <;> by_cases s3 : st = 3 <;> by_cases s4 : st = 4 <;>
+          simp_all [T.Ext.update_mt_19, extToT, vertical_rate_eq m L, altitude_delta_eq m L, heading_eq, envOfT,
+            chSub1, chSub2, chSub3]
+      by_cases h4 : 20 ≤ tc ∧ tc ≤ 22
+      · simp [h1, h2, h3, h4, T.Ext.update_mt_20_22, extToT, altitude_gnss_eq, surveillance_status_eq]
+      by_cases h5 : tc = 31
+      · subst h5
+        simp [T.Ext.update_mt_31, extToT, version_eq]
+      · simp [h1, h2, h3, h4, h5]
+    exact hk { df := some df, icao := getIcao m df, capability := getCapability m, messageType := getMessageType m } rfl
+
+-- default path, extended squitters ----------------------------------------------------------------------
+theorem amend_cpr_sim (te : TEnv) (p : Plane) (d : Ext) :
+    T.Plane.amend_cpr te (planeToT p) (extToT d) = planeToT (p.storeCpr (envOfT te) d.messageType.1 d.cpr) := by
+  unfold T.Plane.amend_cpr Plane.storeCpr
+  have e1 : (extToT d).cpr = d.cpr := rfl
+  have e2 : (extToT d).message_type = d.messageType := rfl
+  simp only [e1, e2]
+  cases d.cpr with
+  | none => rfl
+  | some c =>
+    obtain ⟨f, la, lo⟩ := c
+    simp only
+    have := setCprSlot_sim p d.messageType.1 (f, la, lo)
+    simp only at this
+    rw [this, update_position_sim]
+
+theorem amend_from_ext_1_4_sim (p : Plane) (d : Ext) :
+    T.Plane.amend_from_ext_1_4 (planeToT p) (extToT d) = planeToT (p.amendExt14 d) := by
+  unfold T.Plane.amend_from_ext_1_4 Plane.amendExt14
+  have e1 : (extToT d).ais = d.ais := rfl
+  have e2 : (extToT d).message_type = d.messageType := rfl
+  simp only [e1, e2]
+  cases h : d.ais <;> simp [planeToT]
+
+theorem amend_from_ext_5_8_sim (te : TEnv) (p : Plane) (d : Ext) :
+    T.Plane.amend_from_ext_5_8 te (planeToT p) (extToT d) = planeToT (p.amendExt58 (envOfT te) d) := by
+  unfold T.Plane.amend_from_ext_5_8 Plane.amendExt58
+  rw [← amend_cpr_sim]
+  rfl
+
+theorem amend_from_ext_9_18_sim (te : TEnv) (p : Plane) (d : Ext) :
+    T.Plane.amend_from_ext_9_18 te (planeToT p) (extToT d) = planeToT (p.amendExt918 (envOfT te) d) := by
+  unfold T.Plane.amend_from_ext_9_18 Plane.amendExt918
+  rw [← amend_cpr_sim]
+  rfl
+
+theorem amend_from_ext_19_sim (p : Plane) (d : Ext) :
+    T.Plane.amend_from_ext_19 (planeToT p) (extToT d) = planeToT (p.amendExt19 d) := by
+  unfold T.Plane.amend_from_ext_19 Plane.amendExt19 gnssUpdate gnssFromDelta
+  have e1 : (extToT d).altitude_delta = d.altitudeDelta := rfl
+  have e2 : (extToT d).message_type = d.messageType := rfl
+  have e3 : (planeToT p).altitude = p.altitude := rfl
+  simp only [e1, e2]
+  generalize d.messageType.2 = st
+  by_cases h1 : st = 1 <;> by_cases h2 : st = 2 <;> by_cases h3 : st = 3 <;> by_cases h4 : st = 4 <;>
+    cases ha : p.altitude <;> cases hd : d.altitudeDelta <;>
+    simp_all [planeToT, extToT, chSub1, chSub2, chSub3]
+
+theorem amend_from_ext_20_22_sim (p : Plane) (d : Ext) :
+    T.Plane.amend_from_ext_20_22 (planeToT p) (extToT d) = planeToT (p.amendExt2022 d) := by
+  simp [T.Plane.amend_from_ext_20_22, Plane.amendExt2022, planeToT, extToT]
+
+theorem amend_from_ext_31_sim (p : Plane) (d : Ext) :
+    T.Plane.amend_from_ext_31 (planeToT p) (extToT d) = planeToT (p.amendExt31 d) := by
+  simp [T.Plane.amend_from_ext_31, Plane.amendExt31, planeToT, extToT]
+
+theorem amendExtTc_sim (te : TEnv) (p : Plane) (d : Ext) :
+    (let tc := d.messageType.1
+     if 1 ≤ tc ∧ tc ≤ 4 then T.Plane.amend_from_ext_1_4 (planeToT p) (extToT d)
+     else if 5 ≤ tc ∧ tc ≤ 8 then T.Plane.amend_from_ext_5_8 te (planeToT p) (extToT d)
+     else if 9 ≤ tc ∧ tc ≤ 18 then T.Plane.amend_from_ext_9_18 te (planeToT p) (extToT d)
+     else if tc = 19 then T.Plane.amend_from_ext_19 (planeToT p) (extToT d)
+     else if 20 ≤ tc ∧ tc ≤ 22 then T.Plane.amend_from_ext_20_22 (planeToT p) (extToT d)
+     else if tc = 31 then T.Plane.amend_from_ext_31 (planeToT p) (extToT d)
+     else planeToT p) = planeToT (Plane.amendExtTc (envOfT te) p d) := by
+  unfold Plane.amendExtTc
+  simp only [amend_from_ext_1_4_sim, amend_from_ext_5_8_sim, amend_from_ext_9_18_sim, amend_from_ext_19_sim,
+    amend_from_ext_20_22_sim, amend_from_ext_31_sim]
+  repeat' split
+  all_goals rfl
+
+theorem update_from_downlink_Ext_sim (te : TEnv) (p : Plane) (d : Ext) :
+    T.Plane.update_from_downlink_Ext te (planeToT p) (extToT d) = planeToT (p.amendExt (envOfT te) d) := by
+  have key := amendExtTc_sim te { p with lastTypeCode := d.messageType.1, cap0 := d.capability } d
+  unfold T.Plane.update_from_downlink_Ext Plane.amendExt
+  have e1 : (extToT d).icao = d.icao := rfl
+  have e2 : (extToT d).message_type = d.messageType := rfl
+  have e3 : (extToT d).capability = d.capability := rfl
+  simp only [e1, e2, e3]
+  by_cases hi : d.icao.isSome = true
+  · simp only [hi, if_true]
+    exact key
+  · simp [hi]
+
+-- constructors that only `impl Default` reaches
+theorem capability_new_eq : T.Capability.new = capToT {} := rfl
+theorem svi_new_eq : T.SelectedVerticalIntention.new = bdsToT { mcp := none, fms := none, baro := none, source := none } := rfl
+theorem tat_new_eq : T.TrackAndTurn.new = bds50ToT { roll := none, track := none, rate := none, gs := none, tas := none } := rfl
+theorem has_new_eq : T.HeadingAndSpeed.new = bds60ToT { heading := none, ias := none, mach := none, baroRate := none, ivv := none } := rfl
+theorem meteo_new_eq : T.Meteo.new = meteoToT { temp := none, wind := none, humidity := none, turbulence := none, pressure := none } := rfl
+
 end Sq.Bridge
